@@ -6,7 +6,9 @@ from lib.semcheck import model_expr, compare, describe, shrink, IMPORTS
 ID = 'C05'
 THEOREMS = ['C05_cut_code_correct', 'C05_compiled_program_computes_reference', 'C05_cut_prunes_later_clauses', 'C05_no_cut_continues', 'C05_cut_local_to_predicate', 'C05_query_result_after_cut', 'C05_cut_spec_readable', 'C05_cut_first',
             'C05_cut_in_disjunction_branch', 'C05_cut_in_then_branch', 'C05_cut_in_else_branch', 'C05_cut_survives_continuation', 'C05_cut_continuation_backtracks',
-            'C05_consumers_ignore_cut_flag', 'C05_evaluate_bounded_is_plain_iteration', 'C05_cut_flag_is_not_the_end_of_the_query', 'C05_stopping_at_the_cut_flag_loses_answers']
+            'C05_consumers_ignore_cut_flag', 'C05_evaluate_bounded_is_plain_iteration', 'C05_cut_flag_is_not_the_end_of_the_query', 'C05_stopping_at_the_cut_flag_loses_answers',
+            'C05_untaken_else_cut', 'C05_untaken_else_cut_alternative_tried', 'C05_untaken_then_cut', 'C05_guarded_cut_alternative', 'C05_untaken_else_cut_with_continuation',
+            'C05_head_mismatch_skips_clause', 'C05_head_mismatch_body_irrelevant']
 CASE_TIMEOUT = 60
 MODEL_NEEDS_IMPL = True
 COQ_CHUNK = 20
